@@ -41,8 +41,6 @@ import (
 	"verifh/vh"
 )
 
-const sigLogMask = "logging-writer-loses-dropped-count"
-
 // hung is set when the handler did not answer: a definitive failure; generation stops.
 var hung bool
 
@@ -442,11 +440,8 @@ func run(w *vh.W, c *jcase) {
 	preOK := c.Auth && precValid && c.BucketParam && c.GzipFault != "header" && c.OrgFound && c.BucketFound && c.Perm
 	n := int64(len(c.Body))
 	sig := "" // the former finding limit-exact-body-rejected is fixed (commit ea653b404e): nothing is tolerated for it
-	// shape of the open finding, decided from the inputs only: the engine reports a partial write and the
-	// LoggingPointsWriter cannot log it (no log bucket / finder error / log write fails)
-	if preOK && c.Logger && c.Writer == 1 && (c.Finder != 0 || !c.LogOK) {
-		sig = sigLogMask
-	}
+	// (the former finding logging-writer-loses-dropped-count is fixed too: failing logging attempts of the
+	// LoggingPointsWriter are still generated, nothing is tolerated for them)
 	delta := "nolimit"
 	if c.Limit > 0 {
 		switch d := n - c.Limit; {
